@@ -273,7 +273,7 @@ def _constants(model: Model, rep: Report, spec: dict, fo: Folder) -> None:
 def _decipher_walk(model: Model, rep: Report) -> None:
     """C10-R6: every string of a parsed object is deciphered, at any nesting depth - the walk recurses into every list
     element and every dictionary value without filtering, and calls the handler for every non-empty byte string."""
-    r6 = rep.rule("C10-R6", "NORMFORM", "decipher_all: bytes -> handler (empty strings unchanged); lists and dictionaries are walked completely (no element is skipped by type)", 3)
+    r6 = rep.rule("C10-R6", "NORMFORM", "decipher_all: bytes -> handler (empty strings unchanged); lists, dictionaries and stream dictionaries are walked completely (no element is skipped by type)", 4)
     f = model.func("pdfminer.pdftypes.decipher_all")
     x = f.params[-1]
     arms = {}
@@ -306,6 +306,14 @@ def _decipher_walk(model: Model, rep: Report) -> None:
             st = loops[0].body[0]
             okd = isinstance(st, ast.Assign) and isinstance(st.value, ast.Call) and (dotted(st.value.func) or "") == "decipher_all" and isinstance(st.targets[0], ast.Subscript) and unparse(st.targets[0].value) == x
     r6.check(okd, site(f, di) if di is not None else site(f), f.qualname, "every value of a dictionary is walked and stored back under its key", why="dict branch changed")
+    # the parser produces one more container: a stream, whose dictionary holds strings like any other (7.6.1: all strings of
+    # the file are encrypted, apart from the few exceptions the handler itself deals with)
+    st_ = arms.get("PDFStream")
+    oks = False
+    if st_ is not None:
+        calls = [c for n in st_.body for c in ast.walk(n) if isinstance(c, ast.Call) and (dotted(c.func) or "") == "decipher_all"]
+        oks = any("".join(unparse(c.args[-1]).split()) == f"{x}.attrs" for c in calls)
+    r6.check(oks, site(f, st_) if st_ is not None else site(f), f.qualname, "the dictionary of a stream is walked too (isinstance(x, PDFStream) -> x.attrs)", why="a stream object comes back from decipher_all untouched: the strings in its dictionary (/Params /ModDate and /CheckSum of an embedded file, the lookup string of an /Indexed colour space, /DecodeParms strings) stay encrypted")
 
 
 def _rc4(model: Model, rep: Report) -> None:
